@@ -305,6 +305,9 @@ class Executor(object):
                 raise OutOfSubset('list literal of tuples needs a typed destination')
             elems = [self.coerce(e, pt.args[0], st) for e in v.py]
             return self.new_list(st, pt.args[0], Concat(*[Unit(e.t) for e in elems]))
+        if v.pt.kind in ('emptylist', 'emptydict', 'emptyset', 'pylistlit') and pt.kind == 'opt' and pt.args[0].is_ref():
+            inner = self.coerce(v, pt.args[0], st)
+            return SV(pt, inner.t)
         if v.pt.kind in ('emptylist', 'emptydict', 'emptyset') and pt.is_ref():
             want = {'emptylist': ('list',), 'emptydict': ('dict', 'ddict'), 'emptyset': ('set',)}[v.pt.kind]
             if pt.kind in want:
@@ -1498,6 +1501,8 @@ class Executor(object):
         """content of list/seq value as Seq term of elem sort (coercing element type only when identical)"""
         if v.pt.kind == 'emptylist':
             return Empty(SeqS(sort_of(elem_pt)))
+        if v.pt.kind == 'opt' and v.pt.args[0].kind == 'list':
+            v = self.unwrap_opt(st, v, None)
         if v.pt.kind == 'list':
             if v.pt.args[0] != elem_pt:
                 raise OutOfSubset('list element type %r vs %r' % (v.pt.args[0], elem_pt))
@@ -1868,6 +1873,15 @@ class Executor(object):
                     raise PyExc(ExcV('AttributeError'))
                 return self.get_field(st, SV(TObj(down[0]), base.t), n.attr)
             return SV(PT('method'), py=(base, n.attr))
+        if k == 'opt' and base.pt.args[0].kind == 'tuple':
+            base = self.unwrap_opt(st, base, n)
+            k = 'tuple'
+        if k == 'tuple':
+            from .cexpr import NAMED_TUPLES
+            names = NAMED_TUPLES.get(base.pt)
+            if names is not None and n.attr in names:
+                i = names.index(n.attr)
+                return self.wf(st, SV(base.pt.args[i], ptypes.tuple_get(base.pt, base.t, i)))
         if k == 'excv':
             exc = base.py
             if n.attr in exc.fields:
